@@ -84,7 +84,7 @@ PROP_SYNC = {
     "C14": ["gen/SyncDec.v", "gen/SyncMisc.v", "gen/SyncEffects.v", "gen/SyncWireDec.v", "gen/SyncBuf.v", "gen/SyncWire.v", "gen/SyncRead.v", "gen/SyncGetAny.v", "gen/SyncHygiene.v"],
     "C15": ["gen/SyncWire.v", "gen/SyncWireDec.v", "gen/SyncBuf.v", "gen/SyncRead.v", "gen/SyncGetAny.v", "gen/SyncHygiene.v"],
     "C16": ["gen/GenConsts.v", "gen/SyncEnc.v", "gen/SyncDec.v", "gen/SyncMisc.v", "gen/SyncAcc.v", "gen/SyncWire.v", "gen/SyncWireDec.v", "gen/SyncBuf.v", "gen/SyncRead.v", "gen/SyncGetAny.v", "gen/SyncHygiene.v"],
-    "C17": ["gen/SyncString.v", "gen/SyncAcc.v", "gen/SyncWf.v"],
+    "C17": ["gen/SyncString.v", "gen/SyncAcc.v", "gen/SyncWf.v", "gen/SyncHygiene.v"],
     "C18": ["gen/SyncEnc.v", "gen/SyncAcc.v", "gen/SyncDump.v", "gen/SyncString.v", "gen/SyncWire.v", "gen/SyncHygiene.v"],
     "C19": ["gen/SyncEnc.v", "gen/SyncDec.v", "gen/SyncAcc.v", "gen/SyncDump.v", "gen/SyncString.v", "gen/SyncWire.v", "gen/SyncWireDec.v", "gen/SyncBuf.v", "gen/SyncRead.v", "gen/SyncGetAny.v", "gen/SyncHygiene.v"],
 }
